@@ -2,6 +2,7 @@
 package main
 
 import (
+	"math"
 	"context"
 	"errors"
 	"fmt"
@@ -451,6 +452,8 @@ func configs() []cfg {
 		// three sources, batch 1, refresh 10s / TTL 15s / idle 25s: at the 20s tick all three are expired and queued
 		// behind one slow provider call; at the 30s tick they are idle and must be evicted although the backlog is still there
 		{Submit: []string{"a", "b", "c"}, MaxBatch: 1, Idle: 25 * time.Second, Ticks: 3, Outcomes: 1, Held: true},
+		// eviction "switched off" with the largest duration the flags accept
+		{Submit: []string{"a"}, MaxBatch: 1, Idle: time.Duration(math.MaxInt64), Ticks: 2, Outcomes: 2},
 		// one provider call per second: the second and third source wait for their budget
 		{Submit: []string{"a", "b", "c"}, MaxBatch: 1, Idle: never, Ticks: 1, Outcomes: 1, Tight: true},
 	}
